@@ -66,6 +66,12 @@ def gen_cases(tier, seed):
     for i in range(n):
         a = TM.gen_dead_idle_then_quiet(r)
         cs.append(Case("dq%d" % i, "pool", a, "dead-idle-then-quiet", True))
+    # bursts larger than any plausible internal bound on pooled sessions: every request of the burst keeps its session,
+    # and the requests that follow still find established sessions (seeds C12-7 / C13-8: a pool size cap that closes
+    # the oldest pooled -- in-use -- sessions on insertion)
+    for i in range(8 if tier == "quick" else 100):
+        a = TM.gen_big_burst(r)
+        cs.append(Case("bb%d" % i, "pool", a, "big-burst", True))
     return cs
 
 
